@@ -957,15 +957,20 @@ func (p *Partition) compact() {
 			// Start compacting in a separate goroutine.
 			p.currentCompactionN++
 			go func() {
+				// Ensure compaction lock for the level is released.
+				var once sync.Once
+				done := func() {
+					once.Do(func() {
+						p.mu.Lock()
+						p.levelCompacting[level] = false
+						p.currentCompactionN--
+						p.mu.Unlock()
+					})
+				}
 
 				// Compact to a new level.
-				p.compactToLevel(files, level+1, interrupt)
-
-				// Ensure compaction lock for the level is released.
-				p.mu.Lock()
-				p.levelCompacting[level] = false
-				p.currentCompactionN--
-				p.mu.Unlock()
+				p.compactToLevel(files, level+1, interrupt, done)
+				done()
 
 				// Check for new compactions
 				p.Compact()
@@ -976,7 +981,8 @@ func (p *Partition) compact() {
 
 // compactToLevel compacts a set of files into a new file. Replaces old files with
 // compacted file on successful completion. This runs in a separate goroutine.
-func (p *Partition) compactToLevel(files []*IndexFile, level int, interrupt <-chan struct{}) {
+// done is called once the new file is in place, before the old files are closed.
+func (p *Partition) compactToLevel(files []*IndexFile, level int, interrupt <-chan struct{}, done func()) {
 	assert(len(files) >= 2, "at least two index files are required for compaction")
 	assert(level > 0, "cannot compact level zero")
 
@@ -1073,6 +1079,11 @@ func (p *Partition) compactToLevel(files []*IndexFile, level int, interrupt <-ch
 	// Release old files.
 	once.Do(func() { IndexFiles(files).Release() })
 
+	// The compaction is complete. Closing the old files waits for their
+	// readers, and a reader may itself be waiting for compactions to finish
+	// (a delete holds its series iterator while it calls Wait).
+	done()
+
 	// Close and delete all old index files.
 	for _, f := range files {
 		log.Info("Removing index file", zap.String("path", f.Path()))
@@ -1121,11 +1132,17 @@ func (p *Partition) checkLogFile() error {
 	// Begin compacting in a background goroutine.
 	p.currentCompactionN++
 	go func() {
-		p.compactLogFile(logFile)
+		var once sync.Once
+		done := func() {
+			once.Do(func() {
+				p.mu.Lock()
+				p.currentCompactionN-- // compaction is now complete
+				p.mu.Unlock()
+			})
+		}
 
-		p.mu.Lock()
-		p.currentCompactionN-- // compaction is now complete
-		p.mu.Unlock()
+		p.compactLogFile(logFile, done)
+		done()
 
 		p.Compact() // check for new compactions
 	}()
@@ -1136,7 +1153,8 @@ func (p *Partition) checkLogFile() error {
 // compactLogFile compacts f into a tsi file. The new file will share the
 // same identifier but will have a ".tsi" extension. Once the log file is
 // compacted then the manifest is updated and the log file is discarded.
-func (p *Partition) compactLogFile(logFile *LogFile) {
+// done is called once the new file is in place, before the log file is closed.
+func (p *Partition) compactLogFile(logFile *LogFile, done func()) {
 	if p.isClosing() {
 		return
 	}
@@ -1219,6 +1237,11 @@ func (p *Partition) compactLogFile(logFile *LogFile) {
 		zap.Int64("bytes", n),
 		zap.Int("kb_per_sec", int(float64(n)/elapsed.Seconds())/1024),
 	)
+
+	// The compaction is complete. Closing the log file waits for its readers,
+	// and a reader may itself be waiting for compactions to finish (a delete
+	// holds its series iterator while it calls Wait).
+	done()
 
 	// Closing the log file will automatically wait until the ref count is zero.
 	if err := logFile.Close(); err != nil {
